@@ -1568,7 +1568,7 @@ pub fn main() {
                 let (s, fl) = sweep_triples::<CHash, CDefVec>(&tu);
                 ("triples hash+defvec".into(), s, fl)
             }));
-            if thorough {
+            {
                 jobs.push(Box::new(move || {
                     let (s, fl) = sweep_triples::<CBTree, CNull>(&tu);
                     ("triples btree+null".into(), s, fl)
